@@ -47,6 +47,7 @@ type Contract struct {
 	Trusted  bool            // contract is assumed, body is not verified
 	Safety   map[string]bool // explicit enable/disable of safety obligation kinds
 	Callback map[string][]Clause
+	CallbackPre map[string][]Clause
 	Opaque   []string // callee names whose effects are ignored (pure/no effect on modelled state)
 	Pure     bool     // function has no effect on modelled heap (implies modifies nothing)
 	Timeout  int      // per-obligation solver time limit override (seconds)
@@ -147,7 +148,7 @@ func (cs *ContractSet) ParseContractText(file, pkgPath, pkgName, text string) {
 		}
 		switch kw {
 		case "func":
-			cur = &Contract{Key: rest, PkgPath: pkgPath, File: file, Line: rl.line, Loops: map[int]*LoopSpec{}, Safety: map[string]bool{}, Callback: map[string][]Clause{}, Arith: "int", Floats: "fp"}
+			cur = &Contract{Key: rest, PkgPath: pkgPath, File: file, Line: rl.line, Loops: map[int]*LoopSpec{}, Safety: map[string]bool{}, Callback: map[string][]Clause{}, CallbackPre: map[string][]Clause{}, Arith: "int", Floats: "fp"}
 			curLemma, curSpec = nil, nil
 			k := pkgPath + "::" + rest
 			if _, dup := cs.Funcs[k]; dup {
@@ -364,12 +365,16 @@ func (cs *ContractSet) ParseContractText(file, pkgPath, pkgName, text string) {
 				continue
 			}
 			f := strings.SplitN(rest, " ", 3)
-			if len(f) < 3 || (f[1] != "ensures") {
-				cs.errf(file, rl.line, "bad callback clause (want: callback NAME ensures E)")
+			if len(f) < 3 || (f[1] != "ensures" && f[1] != "requires") {
+				cs.errf(file, rl.line, "bad callback clause (want: callback NAME ensures|requires E)")
 				continue
 			}
 			if c, ok := mkClause(f[2]); ok {
-				cur.Callback[f[0]] = append(cur.Callback[f[0]], c)
+				if f[1] == "requires" {
+					cur.CallbackPre[f[0]] = append(cur.CallbackPre[f[0]], c)
+				} else {
+					cur.Callback[f[0]] = append(cur.Callback[f[0]], c)
+				}
 			}
 		case "opaque":
 			if cur != nil {
